@@ -108,6 +108,40 @@ def damaged(seed, objs):
                     pass
                 finally:
                     signal.alarm(0)
+    # a damaged cache entry makes Memory recompute: every truncation point of output.pkl, plain and compressed
+    import os, shutil, tempfile
+    from joblib import Memory
+    import joblib.memory as jm
+    root = tempfile.mkdtemp(prefix="pyvc_c14_")
+    try:
+        for comp in (False, True):
+            loc = os.path.join(root, "c%d" % comp)
+            def target(x):
+                return {"k": [x, x + 1, 2.5 * x], "s": "text" * 5}
+            mem = Memory(loc, verbose=0, compress=comp)
+            cf = mem.cache(target)
+            good = cf(3)
+            out = [os.path.join(dp, "output.pkl") for dp, dn, fn in os.walk(loc) if "output.pkl" in fn][0]
+            raw = open(out, "rb").read()
+            for k in list(range(len(raw))) + [-1, -2]:
+                cases += 1
+                data = raw[:k] if k >= 0 else raw + b"junk" * (-k)
+                with open(out, "wb") as fh:
+                    fh.write(data)
+                jm._FUNCTION_HASHES.clear()
+                signal.alarm(15)
+                try:
+                    r = Memory(loc, verbose=0, compress=comp).cache(target)(3)
+                except Hang:
+                    return dict(violation=True, cases=cases, what="cached call hung on a damaged entry", witness=dict(cut=k, compress=comp))
+                except Exception as e:
+                    return dict(violation=True, cases=cases, what="cached call raised %r on a damaged entry instead of recomputing" % (e,), witness=dict(cut=k, length=len(raw), compress=comp))
+                finally:
+                    signal.alarm(0)
+                if r != good:
+                    return dict(violation=True, cases=cases, what="damaged entry returned garbage %r" % (r,), witness=dict(cut=k, compress=comp))
+    finally:
+        shutil.rmtree(root, ignore_errors=True)
     return dict(violation=False, cases=cases)
 
 
